@@ -135,7 +135,7 @@ pub fn run(ctx: &Ctx) {
         }
     }
 
-    super::regressions::run(ctx, "C02", |j| EvalCase::from_json(j).map(|c| check(&c)));
+    super::regressions::run(ctx, "C02", replay);
 
     let covered: Mutex<BTreeSet<String>> = Mutex::new(BTreeSet::new());
     let covered_ok: Mutex<BTreeSet<String>> = Mutex::new(BTreeSet::new());
